@@ -393,6 +393,9 @@ def r16_13(ctx):
 
 
 def run(ctx):
+    from .sweep import r16_14 as _r16_14, r16_15 as _r16_15
+    _r16_14(ctx)
+    _r16_15(ctx)
     r16_13(ctx)
     r16_11(ctx)
     r16_12(ctx)
